@@ -175,7 +175,52 @@ def run(ctx) -> Result:
         jobs = jobs + rng.sample(jobs, 4)
         o = vtime.run(lambda loop, r=regs, j=jobs, s=(i % 3 == 0): scenario(r, j, s), budget=20_000_000)
         check(regs, jobs, o, model, res, f"routers-{seed}-{i}")
+    # shared queue on the Redis and RabbitMQ brokers (in-process fake servers): foreign and own messages interleaved, for
+    # several sizes of the worker's delivery window (tasks_limit)
+    for kind in ("redis", "rabbit"):
+        for tl in (1, 2, 1000):
+            for layout in range(4 if deep else 2):
+                rng = Rng(seed, f"c11/{kind}/{tl}/{layout}")
+                shared_queue(kind, tl, rng, res)
     return res
+
+
+F25 = "F25-rabbit-foreign-head-blocks-window"
+
+
+def shared_queue(kind: str, tl: int, rng: Rng, res: Result) -> None:
+    from props import c02
+    from workrun import S
+    n = rng.randint(3, 7)
+    jobs = []
+    for i in range(n):
+        own = rng.random() < 0.6 or i == n - 1
+        jobs.append({"id": f"{'o' if own else 'f'}{i}", "name": "act" if own else "foreign", "queue": "default", "retries": 0,
+                     "timeout": 10 * S, "plan": [{"k": "ret"}]})
+    if layout_first_foreign := (rng.random() < 0.7):
+        jobs[0].update(id="f0", name="foreign")
+    sc = {"jobs": jobs, "actors": {"act": "default"}, "converter": "basic", "policy": {"kind": "const", "us": 0},
+          "tasks_limit": tl, "horizon_s": 8.0, "broker": kind}
+    r = vtime.run(lambda loop, s=sc: c02.run_scenario(s), budget=40_000_000)
+    executed = sorted({e["id"] for e in r.events if e["kind"] == "actor_end"})
+    own_ids = sorted(j["id"] for j in jobs if j["name"] == "act")
+    foreign_ids = sorted(j["id"] for j in jobs if j["name"] != "act")
+    places = r.msg_params()
+    res.note(("shared-queue", kind, tl, tuple(j["name"] for j in jobs)))
+    res.dist[f"shared-queue:{kind}:window{tl}"] += 1
+    case = {"label": f"shared-queue-{kind}", "tasks_limit": tl, "queue": [[j["id"], j["name"]] for j in jobs]}
+    if [x for x in executed if x in foreign_ids]:
+        res.bad("impl", "a message of a topic the worker has no actor for was executed", case=case, observed=executed)
+    if [x for x in own_ids if x not in executed]:
+        # F25: as many foreign messages waiting as the delivery window is wide — they occupy the whole window
+        blocked_by_head = kind == "rabbit" and len(foreign_ids) >= tl
+        res.bad("impl", "own messages behind a foreign one in a shared queue were not executed: the worker blocks on a message it has "
+                        "no actor for", case=case, observed={"executed": executed, "own": own_ids}, expected=own_ids,
+                finding=F25 if blocked_by_head else None)
+    for fid in foreign_ids:
+        here = places.get(fid, [])
+        if len(here) != 1 or here[0]["place"] in ("dead",) or here[0]["tried"] not in (0, None):
+            res.bad("impl", "a foreign message was dropped, dead-lettered, duplicated or altered", case=dict(case, message=fid), observed=here)
 
 
 def search(ctx) -> Result:
